@@ -1,3 +1,5 @@
 #!/bin/bash
 # Runs the repository's own suite with the verif guard OFF (baseline: 528 passed, 1 known failure pest_vm::surround::quote).
-cd /repo && cargo nextest run --workspace --no-fail-fast --offline 2>&1 | tee /tmp/repo_tests.log | grep -E "^\s+(Summary|FAIL)|error\[" | sort -u
+# Exit 0 only if exactly that holds.
+cd /repo && cargo nextest run --workspace --no-fail-fast --offline 2>&1 | tee /tmp/repo_tests.log | grep -E "^\s+(Summary|FAIL|SIGABRT|SIGSEGV)|error\[" | sort -u
+grep -q "528 passed, 1 failed" /tmp/repo_tests.log && grep -q "FAIL .*pest_vm::surround quote" /tmp/repo_tests.log
